@@ -80,7 +80,7 @@ pub fn strategy() -> BoxedStrategy<C15Case>
         1 => Just(Some(vec!["txt".to_string()])),
         1 => Just(Some(vec!["rsx".to_string()])),
     ];
-    (vec(e, 1..14), exts, 0u8..6, 0u8..3, any::<bool>(), any::<bool>(), any::<bool>(), prop_oneof![3 => Just(false), 1 => Just(true)])
+    (vec(e, 1..14), exts, 0u8..7, 0u8..3, any::<bool>(), any::<bool>(), any::<bool>(), prop_oneof![3 => Just(false), 1 => Just(true)])
         .prop_map(|(entries, extensions, source_dir_form, cwd_form, config_abs, check_mode, structured, config_in_subdir)| C15Case {
             entries,
             extensions,
@@ -122,7 +122,11 @@ pub fn check(case: &C15Case) -> CaseOutcome
     let sb = Sandbox::new();
     let proj = sb.proj();
     // layout: proj/Breadlog.yaml, proj/src/** (source dir), proj/sub (for sub/../src), proj/elsewhere/**
-    let src = proj.join("src");
+    // form 6: the source dir is <config dir>/proj/src and is configured as "proj/src", i.e. its first
+    // component repeats the name of the configuration directory; a decoy lives in <config dir>/src
+    let nested = case.source_dir_form % 7 == 6 && !case.config_in_subdir;
+    let src_rel: &str = if nested { "proj/src" } else { "src" };
+    let src = proj.join(src_rel);
     std::fs::create_dir_all(&src).unwrap();
     std::fs::create_dir_all(proj.join("sub")).unwrap();
     std::fs::create_dir_all(proj.join("elsewhere/d")).unwrap();
@@ -151,6 +155,10 @@ pub fn check(case: &C15Case) -> CaseOutcome
     {
         put(rel, &mut all_files);
     }
+    if nested
+    {
+        put("src/decoy_in_config_dir_src.rs", &mut all_files);
+    }
     let mut lookalikes = 0;
     let mut links = 0;
     let mut deep_in_scope = 0;
@@ -162,7 +170,7 @@ pub fn check(case: &C15Case) -> CaseOutcome
             {
                 let d = DIRS[*dir % DIRS.len()];
                 let n = NAMES[*name % NAMES.len()];
-                let rel = if d.is_empty() { format!("src/{}", n) } else { format!("src/{}/{}", d, n) };
+                let rel = if d.is_empty() { format!("{}/{}", src_rel, n) } else { format!("{}/{}/{}", src_rel, d, n) };
                 if put(&rel, &mut all_files)
                 {
                     if in_scope_name(n, &exts)
@@ -183,13 +191,13 @@ pub fn check(case: &C15Case) -> CaseOutcome
             {
                 let d = DIRS[*dir % DIRS.len()];
                 let n = NAMES[*name % NAMES.len()];
-                let rel = if d.is_empty() { format!("src/link_{}", n) } else { format!("src/{}/link_{}", d, n) };
+                let rel = if d.is_empty() { format!("{}/link_{}", src_rel, n) } else { format!("{}/{}/link_{}", src_rel, d, n) };
                 let p = proj.join(&rel);
                 let _ = std::fs::create_dir_all(p.parent().unwrap());
                 let target = if matches!(e, Entry15::LinkToFileInside { .. })
                 {
-                    put("src/target_inside.dat", &mut all_files);
-                    proj.join("src/target_inside.dat")
+                    put(&format!("{}/target_inside.dat", src_rel), &mut all_files);
+                    proj.join(src_rel).join("target_inside.dat")
                 }
                 else
                 {
@@ -204,10 +212,10 @@ pub fn check(case: &C15Case) -> CaseOutcome
             Entry15::LinkToDirInside { dir } | Entry15::LinkToDirOutside { dir } =>
             {
                 let d = DIRS[*dir % DIRS.len()];
-                let rel = if d.is_empty() { "src/linkdir".to_string() } else { format!("src/{}/linkdir", d) };
+                let rel = if d.is_empty() { format!("{}/linkdir", src_rel) } else { format!("{}/{}/linkdir", src_rel, d) };
                 let p = proj.join(&rel);
                 let _ = std::fs::create_dir_all(p.parent().unwrap());
-                let target = if matches!(e, Entry15::LinkToDirInside { .. }) { proj.join("src") } else { proj.join("elsewhere") };
+                let target = if matches!(e, Entry15::LinkToDirInside { .. }) { proj.join(src_rel) } else { proj.join("elsewhere") };
                 if std::fs::symlink_metadata(&p).is_err()
                 {
                     std::os::unix::fs::symlink(&target, &p).unwrap();
@@ -219,8 +227,10 @@ pub fn check(case: &C15Case) -> CaseOutcome
     // configuration
     let conf_dir = if case.config_in_subdir { proj.join("conf") } else { proj.clone() };
     std::fs::create_dir_all(&conf_dir).unwrap();
-    let source_dir = match (case.source_dir_form % 6, case.config_in_subdir)
+    let source_dir = match (case.source_dir_form % 7, case.config_in_subdir)
     {
+        (6, false) => "proj/src".to_string(),
+        (6, true) => "../src".to_string(),
         (4, false) => "src/".to_string(),
         (5, false) => "./src/.".to_string(),
         (4, true) => "../src/".to_string(),
@@ -399,7 +409,7 @@ pub fn check(case: &C15Case) -> CaseOutcome
     {
         o.class("config-in-subdirectory");
     }
-    o.class(&format!("source-dir-form-{}", case.source_dir_form % 6));
+    o.class(&format!("source-dir-form-{}", case.source_dir_form % 7));
     if links > 0
     {
         o.class("has-symlinks");
@@ -419,7 +429,7 @@ pub fn run(env: &Env, rec: &Recorder) -> (String, Vec<&'static str>)
 {
     pbt(env, rec, "layouts", env.cases(4000, 60_000), &strategy, &check);
     (
-        "directory layouts: up to 13 entries over 8 directory shapes (nesting <= 4, a directory named x.rs, names with spaces) x 20 file names (look-alike extensions .RS .rsx .rs.bak .rs~ .Rs 'rs' none, hidden, unicode, double extensions), symlinks to files and directories inside and outside the source dir, canary files outside the source dir and in a decoy src/ under the invocation directory; extension lists omitted/[rs]/[rs,rsx]/[RS]/[txt]/[rsx]; source_dir as src, ./src, sub/../src, src/, ./src/., absolute; configuration file in the project root or in a sub-directory (source_dir then contains `..`, with a look-alike src/ next to the configuration); invocation from the project dir, its parent, an unrelated dir; config path relative or absolute; both modes, both styles. Every regular file holds one statement lacking a reference. Oracle: independent scope rule; edit modifies exactly the in-scope set (one insertion each), everything else byte-identical, symlinks unchanged, Breadlog.lock only next to the config; --check scans and reports exactly the in-scope set. Non-trivial = distinct layout with a look-alike or symlink and an in-scope file at depth >= 2, or invoked from another directory".to_string(),
+        "directory layouts: up to 13 entries over 8 directory shapes (nesting <= 4, a directory named x.rs, names with spaces) x 20 file names (look-alike extensions .RS .rsx .rs.bak .rs~ .Rs 'rs' none, hidden, unicode, double extensions), symlinks to files and directories inside and outside the source dir, canary files outside the source dir and in a decoy src/ under the invocation directory; extension lists omitted/[rs]/[rs,rsx]/[RS]/[txt]/[rsx]; source_dir as src, ./src, sub/../src, src/, ./src/., absolute, or `proj/src` below a configuration directory itself named `proj` (with a decoy src/ that a cwd-relative resolution would hit); configuration file in the project root or in a sub-directory (source_dir then contains `..`, with a look-alike src/ next to the configuration); invocation from the project dir, its parent, an unrelated dir; config path relative or absolute; both modes, both styles. Every regular file holds one statement lacking a reference. Oracle: independent scope rule; edit modifies exactly the in-scope set (one insertion each), everything else byte-identical, symlinks unchanged, Breadlog.lock only next to the config; --check scans and reports exactly the in-scope set. Non-trivial = distinct layout with a look-alike or symlink and an in-scope file at depth >= 2, or invoked from another directory".to_string(),
         vec!["the source dir itself being a symlink, non-UTF-8 file names and a file literally named .rs are not generated (the statement does not settle them)"],
     )
 }
